@@ -32,6 +32,7 @@ pub fn all_profiles() -> Vec<Profile> {
         Profile { preds: true, pred_t: true, actions: true, returns: true, skips: true, parts: true, nodeops: true, ..Profile::base("preds-actions") },
         Profile { max_rules: 7, ..Profile::full() },
         Profile { crossing: true, nodeops: true, choice: true, skips: true, parts: true, ..Profile::base("crossing-creations") },
+        Profile { choice: true, choice_weight: 10, skips: true, max_rules: 4, depth: 2, max_tokens: 3, shuffle_decls: true, ..Profile::base("choice-dense") },
     ]
 }
 
